@@ -5,4 +5,5 @@ import ChmpyVerif.Props.C02
 import ChmpyVerif.Props.C11
 import ChmpyVerif.Props.C12
 import ChmpyVerif.Props.C14
+import ChmpyVerif.Props.C16
 import ChmpyVerif.Props.C17
